@@ -27,15 +27,17 @@ def fill(C, PENDING):
       "The stdlib datetime module is the oracle.", "§3 C15")
     C("C17", "exploration", "runtime monitoring: differential against datetime.isoformat/fromisoformat + structural regex monitor",
       "Text from the built-in ISO patterns is read back by the stdlib and stdlib ISO text is parsed by the patterns; widths/fraction/Z shape checked by "
-      "anchored regexes. All ordinals (thorough) and all whole-minute offsets are enumerated; times/date-times/instants are sampled.",
+      "anchored regexes. All ordinals (thorough) and all whole-minute offsets are enumerated; times/date-times/instants are sampled; years <= 0 are judged "
+      "against the documented fixed-width shape; the ISO patterns are also reached through their standard letters in cultures with other separators, used from "
+      "8 threads at once, after a call that raised, and first touched in seeded orders in fresh interpreters (every other one with python -O).",
       "Python 3.12 fromisoformat semantics (fractions truncated to microseconds) as the independent ISO-8601 implementation.", "§3 C17")
 
     C("C16", "exploration", "runtime monitoring: independent week-1 model + round-trip/advance monitors + differential against date.isocalendar",
       "71 week-year rules are executed in every calendar around year boundaries and range ends; regular rules are compared with an independently "
       "written week-1 model, all rules for round trip, week range and weekly advance; the ISO rule against date.isocalendar (all ordinals in "
       "thorough); weekday navigation against modular arithmetic; n-th weekday of month against enumeration with datetime.date.",
-      "Trusts datetime.date.isocalendar/isoweekday and the harness's reading of the regular-rule definition; BCL-style irregular rules are only "
-      "checked for self-consistency.", "§3 C16")
+      "Trusts datetime.date.isocalendar/isoweekday, the harness's reading of the regular-rule definition and, for the BCL-style irregular rules, the "
+      "published .NET Calendar.GetWeekOfYear algorithm re-implemented in the harness.", "§3 C16")
 
     C("C01", "exploration", "runtime monitoring: exhaustive day walk with round-trip/order/field/era monitors + reverse triple enumeration + rejection monitor",
       "The real day->date and date->day conversions of every calendar are executed for every day of the advertised range (thorough; year/month "
@@ -71,8 +73,9 @@ def fill(C, PENDING):
     C("C05", "exploration", "runtime monitoring: local-mapping oracle computed from the recorded interval log (Appendix A.3)",
       "map_local, single/first/last, at_strictly, at_leniently, resolve_local, at_start_of_day and the ZonedDateTime(local, zone, offset) constructor are "
       "executed for local values displaced by +-1 ns..+-1 day around the logged transitions of every zone and compared with the exact 0/1/2-instant set "
-      "derived from the log; sampled (all historical transitions in thorough).",
-      "Trusts the walked interval log (C04/C06 judge it) and integer arithmetic.", "§3 C05")
+      "derived from the log; sampled (all historical transitions in thorough); plus generated user-defined zones (explicit interval lists with very short "
+      "intervals, name-only changes, date-line jumps) and the first/last local day of the supported range.",
+      "Trusts the walked interval log (C04/C06 judge it) and integer arithmetic. Open finding C05:beyond-adjacent-interval (DESIGN 6, row 28) is reported as KNOWN-FINDING.", "§3 C05")
     C("C06", "exploration", "runtime monitoring: differential against an independent reader of the database bytes and a datetime-based rule evaluator",
       "Both real NZD files are decoded by a separately written reader; every zone served by the provider is walked and compared interval by interval "
       "(complete to year 9999 in thorough), point probes in random order are judged against the reference, and ids, version, alias maps, fixed "
@@ -90,8 +93,11 @@ def fill(C, PENDING):
       "Truncations (every prefix in thorough), single-byte substitutions (every position of every zone body, delivered in a reduced carrier stream, in "
       "thorough), k-byte substitutions, insertions and deletions are applied to both real files; each damaged stream is loaded, its ids listed and its zones "
       "fetched under a memory ceiling; any outcome other than success or InvalidPyodaDataError is a violation keyed by exception type and raising function; "
-      "a case flagged by the wall watchdog is re-run under a sys.monitoring line counter and violates only if it executes more than 50x the lines of an intact load.",
-      "Fault model limited to k<=4 byte corruption and single truncation; for faults inside one zone field of the full file only the affected zones plus a "
+      "structure-aware faults located with an independent reader (alias-map entries re-pointed into chains/cycles, a yearly rule overwritten with its sibling's bytes, "
+      "formatting/control bytes in zone names together with body damage) are part of the model; "
+      "a case flagged by the wall watchdog is re-run under a sys.monitoring line counter and violates only if it executes more than 50x the lines the same operations "
+      "take on the intact file, or executes no line at all between two progress ticks (blocked).",
+      "Fault model limited to a handful of substituted bytes, single insertions/deletions and single truncation; for faults inside one zone field of the full file only the affected zones plus a "
       "seeded sample are fetched.", "§3 C20")
 
     C("C19", "exploration", "runtime monitoring: sequential model differential + structural deadlock watchdog + offline linearizability checker over recorded histories with yield injection",
@@ -117,5 +123,7 @@ def fill(C, PENDING):
       "The same collision-provoking query multiset (years congruent mod 1024, zone periods congruent mod 512, >500 cultures, first lookups) is executed in K fresh "
       "interpreter processes in different orders and every answer must be identical and equal to the cache-free references; inside every process hooks compare each "
       "served cache entry with an uncached recomputation; short 2-16 thread trials in fresh processes with seeded sleep(0) at the statement boundaries of every code "
-      "object of the anchored modules must reproduce the single-threaded answers and hand out one object per id.",
+      "object of the anchored modules must reproduce the single-threaded answers and hand out one object per id; the caching zone wrapper is compared with the zone it "
+      "wraps at every transition and at both ends of every 32-day cache period 1800-2100 of every zone; the ambient culture is checked to be per thread and "
+      "format() to follow a writable culture that is customised between calls.",
       "Histories and schedules are sampled (evidence: processes, trials, injections, distinct interleaving signatures); only GIL-level interleavings exist.", "§3 C13")
